@@ -199,6 +199,10 @@ GRID = [
     # that treats '' as NULL in its similarity functions puts these pairs in another level than one that treats it as a value
     {"unique_id": 11, "s": "al", "s2": "b", "d": "1989-12-30", "lat": 0.0, "lon": 0.1, "n": 2, "email": "a@b.c", "pc": "A"},
     {"unique_id": 12, "s": "b", "s2": "al", "d": "1990-01-01", "lat": 0.1, "lon": 0.0, "n": 3, "email": "b@b.c", "pc": "B"},
+    # a transposition with a further edit BETWEEN the transposed letters: the unrestricted Damerau-Levenshtein distance is 2, the restricted
+    # one (optimal string alignment) 3 - backends must implement the same one
+    {"unique_id": 13, "s": "ca", "s2": "johnson", "d": "1990-01-02", "lat": 0.2, "lon": 0.0, "n": 4, "email": "c@b.c", "pc": "C"},
+    {"unique_id": 14, "s": "abc", "s2": "jonahson", "d": "1990-01-03", "lat": 0.0, "lon": 0.2, "n": 5, "email": "d@b.c", "pc": "D"},
 ]
 for _r in GRID:
     _r["f"] = None if _r["n"] is None else _r["n"] + 0.5
